@@ -27,16 +27,21 @@ var allKinds = []string{
 	"legacy-",
 	"once-", "once+", "oncec-", "oncec+", "flush-", "flush+", "join-", "join+",
 	"fnget-", "fnget+", "fnign-", "fnign+", "fnwith+",
+	"fncap-", "fncap+", "fncap2-", "fncap2+", "fndrop-", "fndrop+", "capslot-", "capslot+", "capchain-", "capchain+",
 }
 
 // rendersBlock: callees that render the block they are given (so what is
 // inside the block matters and is expanded inline).
 var rendersBlock = map[string]bool{"slot+": true, "twice+": true, "pass+": true, "after+": true, "once+": true, "flush+": true, "fnget+": true}
 
+// capturesBlock: callees that evaluate their block into a writer of their
+// own; expanded inline at level 0 only (keeps the package small).
+var capturesBlock = map[string]bool{"fncap+": true, "fncap2+": true, "fndrop+": true, "capslot+": true, "capchain+": true}
+
 func callExpr(kind, v string) string {
 	base := kind[:len(kind)-1]
 	switch base {
-	case "slot", "ign", "twice", "pass", "inner", "after", "fnget", "fnign":
+	case "slot", "ign", "twice", "pass", "inner", "after", "fnget", "fnign", "fncap", "fncap2", "fndrop", "capslot", "capchain":
 		return fmt.Sprintf("%s(%s.M)", base, v)
 	case "once":
 		return fmt.Sprintf("oh(%s.H).Once()", v)
@@ -76,7 +81,7 @@ func body(level int, list, ind string) string {
 		default:
 			fmt.Fprintf(&sb, "%s@%s {\n", in, callExpr(k, v))
 			fmt.Fprintf(&sb, "%s\t<div k=\"b\" m={ %s.M }>\n", in, v)
-			if rendersBlock[k] && level < leafLevel && level+1 <= maxLevel {
+			if (rendersBlock[k] && level < leafLevel && level+1 <= maxLevel) || (capturesBlock[k] && level == 0) {
 				sb.WriteString(body(level+1, v+".Kids", in+"\t\t"))
 			} else {
 				fmt.Fprintf(&sb, "%s\t\t@nodes(%s.Kids)\n", in, v)
@@ -130,6 +135,16 @@ templ after(m string) {
 		{ children... }
 		@slot(m + ".i")
 	</div>
+}
+
+// generated capture layer: a capturing function component around a slot
+// callee that is handed this template's children.
+templ capchain(m string) {
+	@fncap(m) {
+		@slot(m + ".i") {
+			{ children... }
+		}
+	}
 }
 
 templ nodes(ts []T) {
@@ -198,6 +213,69 @@ func fnign(m string) templ.Component {
 	})
 }
 
+// budget: bytes the current job may still write to its output and to capture
+// buffers together (see limitWriter).
+var budget int
+
+// capBuf is the private writer of a capturing component.
+type capBuf struct{ bytes.Buffer }
+
+func (c *capBuf) Write(p []byte) (int, error) {
+	if budget -= len(p); budget < 0 {
+		return 0, errLimit
+	}
+	return c.Buffer.Write(p)
+}
+
+// capture: hand-written component that renders its children into a buffer of
+// its own (documented protocol: GetChildren, ClearChildren) and then writes
+// what it captured, wrapped in its marker, times times.
+func capture(kind, m string, times int) templ.Component {
+	return templ.ComponentFunc(func(ctx context.Context, w io.Writer) error {
+		children := templ.GetChildren(ctx)
+		ctx = templ.ClearChildren(ctx)
+		var b capBuf
+		if err := children.Render(ctx, &b); err != nil {
+			return err
+		}
+		if _, err := fmt.Fprintf(w, "<div k=\"%s\" m=\"%s\">", kind, m); err != nil {
+			return err
+		}
+		for i := 0; i < times; i++ {
+			if _, err := w.Write(b.Bytes()); err != nil {
+				return err
+			}
+		}
+		_, err := io.WriteString(w, "</div>")
+		return err
+	})
+}
+
+func fncap(m string) templ.Component  { return capture("cap", m, 1) }
+func fncap2(m string) templ.Component { return capture("cap2", m, 2) }
+func fndrop(m string) templ.Component { return capture("drop", m, 0) }
+
+// capslot: hand-written capture layer around a generated slot callee that is
+// given this component's children.
+func capslot(m string) templ.Component {
+	return templ.ComponentFunc(func(ctx context.Context, w io.Writer) error {
+		children := templ.GetChildren(ctx)
+		ctx = templ.ClearChildren(ctx)
+		var b capBuf
+		if err := slot(m+".i").Render(templ.WithChildren(ctx, children), &b); err != nil {
+			return err
+		}
+		if _, err := fmt.Fprintf(w, "<div k=\"capslot\" m=\"%s\">", m); err != nil {
+			return err
+		}
+		if _, err := w.Write(b.Bytes()); err != nil {
+			return err
+		}
+		_, err := io.WriteString(w, "</div>")
+		return err
+	})
+}
+
 // fnwith: hand-written component that passes children to a generated callee
 // from Go code with templ.WithChildren (documented usage).
 func fnwith(t T) templ.Component {
@@ -246,6 +324,16 @@ func comps(as []T) []templ.Component {
 			out = append(out, fnget(a.M))
 		case "fnign-":
 			out = append(out, fnign(a.M))
+		case "fncap-":
+			out = append(out, fncap(a.M))
+		case "fncap2-":
+			out = append(out, fncap2(a.M))
+		case "fndrop-":
+			out = append(out, fndrop(a.M))
+		case "capslot-":
+			out = append(out, capslot(a.M))
+		case "capchain-":
+			out = append(out, capchain(a.M))
 		case "once-":
 			out = append(out, oh(a.H).Once())
 		case "oncec-":
@@ -262,14 +350,13 @@ func comps(as []T) []templ.Component {
 // limitWriter makes runaway recursion (a block that ends up rendering
 // itself) fail-stop with a write error instead of a fatal stack overflow.
 type limitWriter struct {
-	buf   bytes.Buffer
-	limit int
+	buf bytes.Buffer
 }
 
 var errLimit = fmt.Errorf("output limit exceeded (runaway recursion)")
 
 func (l *limitWriter) Write(p []byte) (int, error) {
-	if l.buf.Len()+len(p) > l.limit {
+	if budget -= len(p); budget < 0 {
 		return 0, errLimit
 	}
 	return l.buf.Write(p)
@@ -277,7 +364,7 @@ func (l *limitWriter) Write(p []byte) (int, error) {
 
 type job struct {
 	ID    int ` + "`json:\"id\"`" + `
-	Limit int ` + "`json:\"limit\"`" + ` // output limit in bytes (several times the size of the correct output)
+	Limit int ` + "`json:\"limit\"`" + ` // bytes the job may write to output and capture buffers together
 	Tree  []T ` + "`json:\"tree\"`" + `
 }
 
@@ -303,7 +390,8 @@ func main() {
 			fmt.Fprintln(os.Stderr, "bad job:", err)
 			os.Exit(3)
 		}
-		lw := limitWriter{limit: j.Limit}
+		var lw limitWriter
+		budget = j.Limit
 		buf := &lw.buf
 		r := result{ID: j.ID}
 		func() {
